@@ -58,7 +58,7 @@ def run_shard_resilient(engine, shard, nshards, seed, tier, outdir, extra, timeo
     return r, incidents
 
 
-def vh_stage(engine, quick=4, thorough=16, extra=(), timeout_q=1500, timeout_t=7200, name=None, death_is_violation=True, confirm_hangs=False, case_limit_s=None, benign_case=None):
+def vh_stage(engine, quick=4, thorough=16, extra=(), timeout_q=1500, timeout_t=7200, name=None, death_is_violation=True, confirm_hangs=False, case_limit_s=None, benign_case=None, confirm_factor_thorough=10):
     def stage(ctx):
         from concurrent.futures import ThreadPoolExecutor
 
@@ -81,13 +81,13 @@ def vh_stage(engine, quick=4, thorough=16, extra=(), timeout_q=1500, timeout_t=7
             return [D.VH, engine, "--replay-case"] + case.split("/")
 
         case_limit = int(os.environ.get("VH_CASE_LIMIT_S", "90"))
-        factor = 10 if ctx["thorough"] else 5
+        factor = (confirm_factor_thorough if ctx["thorough"] else 5)
 
         def classify(inc):
             env = dict(D.ENV)
             if inc.get("abandoned"):
                 return ("incon", {"kind": "shard_abandoned_after_repeated_process_deaths", "case": inc["case"]})
-            if benign_case is not None and benign_case(inc["case"]):
+            if benign_case is not None and benign_case(inc["case"], ctx["thorough"]):
                 # a stop / death in a step that is not the subject of this property (e.g. compiling the unchanged twin)
                 return ("incon", {"kind": "stopped_outside_the_judged_step", "case": inc["case"], "rc": inc["rc"]})
             if inc["rc"] == 86:
@@ -263,7 +263,10 @@ register(
 
 register(
     "C14",
-    [vh_stage("c14", 16, 16, confirm_hangs=True, case_limit_s=20), pinned.hang_stage_factory("pinned_c14.json", "C14")],
+    # a well-formed, unmutated program (case id ends in u) that is still compiling after the quick confirmation budget (100 s) is
+    # inconclusive in the quick tier: valid programs that take minutes to compile exist (de-inliner search); the thorough tier
+    # waits 600 s (30 x 20 s) before it calls anything non-termination
+    [vh_stage("c14", 16, 16, confirm_hangs=True, case_limit_s=20, confirm_factor_thorough=30, benign_case=lambda c, thorough: (not thorough) and c.endswith("u")), pinned.hang_stage_factory("pinned_c14.json", "C14")],
     "inputs: token-level (delete/duplicate/swap/replace by keyword or delimiter/insert/group delete) and byte-level (truncate at a random offset, bit flip, byte insertion, splice of two sources) mutants of generated programs in every dialect "
     "and of the shipped sources under resources/tests (<= 4 KiB), token soup over the language's keywords and delimiters, random bytes, nesting <= 200; each input goes through every entry point: compile (library path, no-optimise path, CLI derivation), "
     "assemble, disassemble v0/1/2, serialise, deserialise (raw and hex), brun-style run, stepping run, cldb stepping, preprocess (-E), dependency listing, unused-argument check, REPL line by line, and the in-process run/run -O/brun/opc/opd tools. "
@@ -364,7 +367,7 @@ register(
 
 register(
     "C10",
-    [vh_stage("c10", 16, 16, confirm_hangs=True, case_limit_s=20, benign_case=lambda c: c.endswith("/twin"))],
+    [vh_stage("c10", 16, 16, confirm_hangs=True, case_limit_s=20, benign_case=lambda c, thorough: c.endswith("/twin"))],
     "well-scoped generated programs (as C01, every modern dialect, command line build, -O on every second case) whose unchanged twin compiles, each with exactly one injected defect: "
     "(a, strict dialects: strict-cl21, cl23, cl23.1, cl24) a fresh unbound name at a random variable position of the main expression (2 positions), of every reachable function and inline function body, as an extra lambda capture, as a &rest tail; "
     "(b) a second defun / defun-inline with the name of an existing function, inserted at a random place; (c) a cycle of 1..4 new inline functions reachable from the main expression (the back call in an argument, a branch, a let binding, a list, an else branch) and a self call added to an existing reachable inline function; "
